@@ -2,7 +2,7 @@ import FM.Base.Str
 import FM.Model.Quotes
 /-
   Model of `typography/ellipses.py: ellipses`:
-    ELLIPSIS_PATTERN = (^|[\w"'“‘])(\s*)(\.\.\.)([.,:;?!)\-—"'”’]?)(\s*)   (no MULTILINE: `^` = start of text)
+    ELLIPSIS_PATTERN = (^|[\w"'“‘”’])(\s*)(\.\.\.)([.,:;?!)\-—"'”’]?)(\s*)   (no MULTILINE: `^` = start of text)
   substituted leftmost, non-overlapping, with the replacement function's boundary test.
   `isWord` is `\w` of Python's `re` (a parameter).
 -/
@@ -12,7 +12,7 @@ def threeDots : Str := ['.', '.', '.']
 def ellipsisChar : Char := '…'
 
 def isEllPrefixChar (isWord : Char → Bool) (c : Char) : Bool :=
-  isWord c || c == '"' || c == '\'' || c == '“' || c == '‘'
+  isWord c || c == '"' || c == '\'' || c == '“' || c == '‘' || c == '”' || c == '’'
 
 def isEllPunct (c : Char) : Bool :=
   c == '.' || c == ',' || c == ':' || c == ';' || c == '?' || c == '!' || c == ')' || c == '-' ||
